@@ -23,6 +23,19 @@ def _run_idx(i):
     return runner.run_unit(_UNITS[i], _EXCL, procs=1)
 
 
+def _scratch():
+    """Every temp file/dir of the harnesses (and of their worker processes) lives under one scratch directory that the
+    main process removes on exit, so a worker killed mid-path (counterexample found, timeout) leaves nothing behind."""
+    import atexit
+    import shutil
+    import tempfile
+    root = tempfile.mkdtemp(prefix="verif_scratch_")
+    os.environ["TMPDIR"] = root
+    tempfile.tempdir = root
+    pid = os.getpid()
+    atexit.register(lambda: os.getpid() == pid and shutil.rmtree(root, ignore_errors=True))
+
+
 def main(argv=None) -> int:
     ap = argparse.ArgumentParser()
     ap.add_argument("prop")
@@ -37,6 +50,7 @@ def main(argv=None) -> int:
     except ValueError:
         seed = 0
     t0 = time.time()
+    _scratch()
     mod = importlib.import_module(f"harness.{prop.lower()}")
     units = mod.units(a.tier, seed)
 
